@@ -82,6 +82,36 @@ fn writer_body(zone: &Zone, k: u8, in_writer: &AtomicBool, overlaps: &AtomicU64,
     drop(w);
 }
 
+/// Multi-batch writer k: batch 1 sets a = A(10+k) and commits; the same WritableZone is re-opened
+/// and batch 2 sets b.a = A(10+k) and commits. The writer owns the zone from write() to drop.
+fn multi_batch_writer_body(zone: &Zone, k: u8, in_writer: &AtomicBool, overlaps: &AtomicU64) {
+    let mut w = zone.write().now_or_never().expect("write() future is ready under the seam");
+    for n in ["a", "b.a"] {
+        if in_writer.swap(true, SO::SeqCst) {
+            overlaps.fetch_add(1, SO::SeqCst);
+        }
+        let apex = w.open(false).now_or_never().unwrap().unwrap();
+        let node = node_for(apex.as_ref(), &rel(n)).now_or_never().unwrap().unwrap();
+        node.update_rrset(rrset_of(&[Rd::A(10 + k)])).now_or_never().unwrap().unwrap();
+        drop(node);
+        drop(apex);
+        in_writer.store(false, SO::SeqCst);
+        w.commit(false).now_or_never().unwrap().unwrap();
+    }
+    drop(w);
+}
+
+fn with_writes_to(base: &Content, k: u8, names: &[&str]) -> Content {
+    let mut c = base.clone();
+    for n in names {
+        let set = c.names.entry(rel(n)).or_default();
+        set.retain(|x| !matches!(x, Rd::A(_)));
+        set.insert(Rd::A(10 + k));
+    }
+    c
+}
+
+#[allow(dead_code)]
 fn with_writes(base: &Content, ks: &[u8]) -> Content {
     let mut c = base.clone();
     for k in ks {
@@ -105,7 +135,9 @@ struct Scenario {
     name: &'static str,
     /// preemption bound for this scenario (None = the tier's bound)
     bound: Option<usize>,
-    /// threads: 'R' reader (two observations), 'W' committing writer, 'A' abandoning writer
+    /// threads: 'R' reader (two observations), 'W' committing writer, 'A' abandoning writer,
+    /// 'M' multi-batch writer (open, edit, commit, re-open with the same WritableZone, edit, commit - as
+    /// ZoneUpdater does for every IXFR batch)
     threads: &'static [char],
 }
 
@@ -118,6 +150,7 @@ fn main() {
         Scenario { name: "reader|writer|reader", bound: None, threads: &['R', 'W', 'R'] },
         Scenario { name: "reader|writer|writer", bound: None, threads: &['R', 'W', 'W'] },
         Scenario { name: "reader|abandoning-writer|writer", bound: None, threads: &['R', 'A', 'W'] },
+        Scenario { name: "reader|multi-batch-writer|writer", bound: None, threads: &['R', 'M', 'W'] },
         // thorough only: four threads at a lower bound
         Scenario { name: "reader|writer|reader|writer", bound: Some(1), threads: &['R', 'W', 'R', 'W'] },
         Scenario { name: "reader|writer|abandoning-writer|reader", bound: Some(1), threads: &['R', 'W', 'A', 'R'] },
@@ -131,18 +164,40 @@ fn main() {
             continue;
         }
         let bound = sc.bound.unwrap_or(bound);
-        // legal contents a reader may be pinned to / the zone may end in
-        let writers: Vec<u8> = sc.threads.iter().enumerate().filter(|(_, t)| **t == 'W').map(|(i, _)| i as u8).collect();
+        // legal contents a reader may be pinned to / the zone may end in: every serial order of
+        // the committing writers (a multi-batch writer holds the zone's write lock across both of
+        // its batches, so its batches are contiguous), every committed version on the way
+        let units: Vec<(u8, char)> = sc.threads.iter().enumerate().filter(|(_, t)| **t == 'W' || **t == 'M').map(|(i, t)| (i as u8, *t)).collect();
         let mut legal: Vec<(String, Obs)> = vec![("v0".into(), expected_obs(&c0))];
-        for &k in &writers {
-            // all writers set the same names, so the last committer decides the content
-            legal.push((format!("w{k}"), expected_obs(&with_writes(&c0, &[k]))));
+        let mut finals: Vec<Obs> = Vec::new();
+        let mut perms: Vec<Vec<(u8, char)>> = vec![vec![]];
+        for _ in 0..units.len() {
+            perms = perms.into_iter().flat_map(|p| units.iter().filter(|u| !p.contains(u)).map(|u| { let mut q = p.clone(); q.push(*u); q }).collect::<Vec<_>>()).collect();
+        }
+        for perm in &perms {
+            let mut c = c0.clone();
+            let mut tag = String::from("v0");
+            for (k, t) in perm {
+                let batches: Vec<&[&str]> = if *t == 'W' { vec![&["a", "b.a"]] } else { vec![&["a"], &["b.a"]] };
+                for (bi, names) in batches.iter().enumerate() {
+                    c = with_writes_to(&c, *k, names);
+                    tag = format!("{tag}>{}{k}{}", t.to_ascii_lowercase(), if *t == 'M' { format!(".{}", bi + 1) } else { String::new() });
+                    let o = expected_obs(&c);
+                    if !legal.iter().any(|(_, l)| *l == o) {
+                        legal.push((tag.clone(), o));
+                    }
+                }
+            }
+            finals.push(expected_obs(&c));
+        }
+        if units.is_empty() {
+            finals.push(expected_obs(&c0));
         }
         let execs = std::sync::Arc::new(AtomicU64::new(0));
         let viols: std::sync::Arc<Mutex<Vec<(String, String)>>> = Default::default();
         let outcomes: std::sync::Arc<Mutex<BTreeSet<String>>> = Default::default();
         let threads: Vec<char> = sc.threads.to_vec();
-        let (e2, v2, o2, legal2, c02) = (execs.clone(), viols.clone(), outcomes.clone(), legal.clone(), c0.clone());
+        let (e2, v2, o2, legal2, c02, finals2) = (execs.clone(), viols.clone(), outcomes.clone(), legal.clone(), c0.clone(), finals.clone());
         let mut b = loom::model::Builder::new();
         b.preemption_bound = Some(bound);
         b.max_branches = 200_000;
@@ -187,9 +242,8 @@ fn main() {
                 }
                 // final state: serial application of the committing writers in some order
                 let fin = observe_zone(zone.read().as_ref());
-                let finals: Vec<&(String, Obs)> = legal2.iter().filter(|(n, _)| if threads.contains(&'W') { n != "v0" } else { true }).collect();
-                match finals.iter().find(|(_, l)| *l == fin) {
-                    Some((name, _)) => outcome.push_str(&format!("final={name}")),
+                match finals2.iter().position(|l| *l == fin) {
+                    Some(i) => outcome.push_str(&format!("final=order{i}")),
                     None => v.push(("C09|loom|final-state-is-no-serial-outcome".into(), "after all threads finished the zone holds a content no serial order of the committing writers produces".into())),
                 }
                 o2.lock().unwrap().insert(outcome);
@@ -237,6 +291,7 @@ fn body(i: usize, t: char, zone: &Zone, in_writer: &AtomicBool, overlaps: &Atomi
         }
         'W' => writer_body(zone, i as u8, in_writer, overlaps, true),
         'A' => writer_body(zone, i as u8, in_writer, overlaps, false),
+        'M' => multi_batch_writer_body(zone, i as u8, in_writer, overlaps),
         _ => unreachable!(),
     }
 }
